@@ -151,10 +151,13 @@ def main(argv=None):
     # (violations that are listed known findings do not count: they say nothing about what broke)
     known0 = core.load_known(pid)
     if problems and not [v for v in violations if not core.matches_known(v, known0)] and driver_ok:
-        log("obligation/correspondence broken; widening monitor search")
+        log("obligation/correspondence broken (%s); widening monitor search" % ", ".join(
+            "%s%s" % (p["kind"], (" x%d" % p["count"]) if p.get("count") else "") for p in problems))
+        wtmp = os.path.join(tmp, "widen")   # keep the cases of the first run for inspection
+        os.makedirs(wtmp, exist_ok=True)
         for eng in cfg.get("engines", []):
-            e2 = dict(eng, search_mult=10 if tier == "quick" else 50, n=(1, 1))
-            r = engine_run(pid, e2, tier, seed + 7919, tmp)
+            e2 = dict(eng, search_mult=10, n=(1, 1))
+            r = engine_run(pid, e2, tier, seed + 7919, wtmp)
             violations += r["violations"]
             if [v for v in r["violations"] if not core.matches_known(v, known0)]:
                 break
